@@ -2545,7 +2545,11 @@ func (pid *PID) freeChildren(ctx context.Context) error {
 				logger.Debugf("parent %s disowning descendant %s", pid.Name(), child.Name())
 				pid.UnWatch(child)
 				tree.removeDescendant(node.id, child.ID())
-				if child.IsSuspended() || child.IsRunning() {
+				// a child whose own stop (or passivation) is already in flight is
+				// neither running nor suspended, but it is not down yet: Shutdown
+				// blocks on the child's stop lock until that stop has finished, so
+				// the parent never completes before one of its descendants
+				if child.IsSuspended() || child.IsRunning() || child.IsStopping() {
 					if err := child.Shutdown(ctx); err != nil {
 						// only return error when the actor is not dead
 						// because if the actor is dead it means that
